@@ -422,6 +422,7 @@ func (vc *VC) appendB(c *ssa.CallCommon, st *State, reach string) SV {
 			j := fmt.Sprintf("j!%d", vc.nfresh)
 			vc.assume("true", fmt.Sprintf("(forall ((%s Int)) (! (=> (and (<= 0 %s) (< %s %s)) (= (select %s %s) (select %s (+ %s %s)))) :pattern ((select %s %s))))",
 				j, j, j, dst.Len, nr, j, oldRow, dst.Off, j, nr, j))
+			vc.segcopy(srt, nr, "0", oldRow, dst.Off, dst.Len)
 			copied = nr
 			for e := 0; e < k; e++ {
 				v := toLeaves(vc.readElem(st, src, sInt(int64(e))))[i]
@@ -448,6 +449,14 @@ func (vc *VC) appendB(c *ssa.CallCommon, st *State, reach string) SV {
 				j, ip, j, lo, j, j, lo, n, srcAt(app("-", j, lo)), oldRow, j, ip, j))
 			vc.assume("true", fmt.Sprintf("(forall ((%s Int)) (! (=> (and (<= 0 %s) (< %s %s)) (= (select %s %s) (ite (< %s %s) (select %s (+ %s %s)) %s))) :pattern ((select %s %s))))",
 				j, j, j, newLen, nr, j, j, dst.Len, oldRow, dst.Off, j, srcAt(app("-", j, dst.Len)), nr, j))
+			vc.segcopy(srt, nr, "0", oldRow, dst.Off, dst.Len)
+			if !srcIsStr {
+				sh := vc.get(st, name, heapSort(srt))
+				srcRow := app("select", sh, src.Ref)
+				vc.segcopy(srt, ip, lo, srcRow, src.Off, n)
+				vc.segcopy(srt, nr, dst.Len, srcRow, src.Off, n)
+			}
+			vc.segcopy(srt, ip, dst.Off, oldRow, dst.Off, dst.Len)
 			inPlace, copied = ip, nr
 		}
 		nh := sIte(fits, app("store", h, dst.Ref, inPlace), app("store", h, fresh, copied))
@@ -483,7 +492,21 @@ func (vc *VC) copyB(c *ssa.CallCommon, st *State, reach string) SV {
 		j := fmt.Sprintf("j!%d", vc.nfresh)
 		vc.assume("true", fmt.Sprintf("(forall ((%s Int)) (! (= (select %s %s) (ite (and (<= %s %s) (< %s (+ %s %s))) %s (select %s %s))) :pattern ((select %s %s))))",
 			j, nr, j, dst.Off, j, j, dst.Off, n, srcAt(i, srt, app("-", j, dst.Off)), oldRow, j, nr, j))
+		if s, ok := vc.val(c.Args[1]).(Sl); ok {
+			sh := vc.get(st, hsName(s.Elem, i), heapSort(srt))
+			vc.segcopy(srt, nr, dst.Off, app("select", sh, s.Ref), s.Off, n)
+		}
 		vc.set(st, name, heapSort(srt), vc.define("H", heapSort(srt), app("store", h, dst.Ref, nr)))
 	}
 	return Sc{"Int", n}
+}
+
+// segcopy records that dst[dOff, dOff+n) is a copy of src[sOff, sOff+n) (prelude predicate, used by counting lemmas).
+func (vc *VC) segcopy(sort, dst, dOff, src, sOff, n string) {
+	switch sort {
+	case "Int":
+		vc.assume("true", app("segcopy", dst, dOff, src, sOff, n))
+	case "Val":
+		vc.assume("true", app("segcopyV", dst, dOff, src, sOff, n))
+	}
 }
